@@ -67,6 +67,22 @@ func c03Programs(r *vc.Run) {
 			c2 := c01GenCaseForTable(rnd, c.Name, c.Tables[0])
 			c = c2
 		}
+		if i%8 == 7 {
+			// a statement that assigns a primary-key column (spelled in another letter case / quoted): if it is accepted,
+			// the row it writes under the new key must be covered by the lock key like any other written row
+			t := c.Tables[0]
+			first := t.Def.Cols[t.Def.PK[0]]
+			var nv interface{} = int64(880000 + i)
+			if first.T != mm.TInt {
+				nv = fmt.Sprintf("Q%04d", i)
+			}
+			w, wargs := pkWhere(t, t.Rows[rnd.Intn(len(t.Rows))], true)
+			col := []string{strings.ToUpper(first.Name), "`" + first.Name + "`", first.Name}[rnd.Intn(3)]
+			st := atStmt{Kind: "update", Table: t.Name, SQL: fmt.Sprintf("update %s set %s = ? where %s", t.Name, col, w), Args: append([]tval{tvOf(nv)}, wargs...),
+				Feat: map[string]string{"stmt": "update-pk", "params": "true", "rows": "1", "where": "pk-eq"}}
+			c.Groups = append(c.Groups, atGroup{Stmts: []atStmt{st}})
+			c.fold()
+		}
 		env.install(c)
 		o := env.runGtx(c, "nil", nil)
 		if o.CallErr != nil {
@@ -188,12 +204,7 @@ func c03JudgeProgram(r *vc.Run, env *atEnv, c *atCase, o *atOutcome, keyText map
 				return
 			}
 			keyText[k] = found
-			if ch.Before != nil && ch.After != nil {
-				// pk-changing writes would need both keys
-				if strings.Join(def.PKValues(ch.Before), "\x00") != strings.Join(def.PKValues(ch.After), "\x00") {
-					viol("pk-changed", "a committed statement changed a primary key")
-				}
-			}
+
 		}
 	}
 	if sawKey {
@@ -265,6 +276,14 @@ func c03SelectForUpdate(r *vc.Run) {
 		if explicit {
 			steps = append(steps, gtxStep{Op: "begin", DB: "at"})
 		}
+		preDML := explicit && rnd.Intn(3) == 0
+		if preDML {
+			// the same local transaction first writes exactly the rows the locking read will select
+			vc0 := t.valueCols()[0]
+			steps = append(steps, gtxStep{Op: "exec", DB: "at", SQL: fmt.Sprintf("update %s set %s = %s where %s", t.Name, t.Def.Cols[vc0].Name, t.Def.Cols[vc0].Name, where), Args: args, StopOnErr: true})
+		}
+		feat["pre_dml_same_rows"] = fmt.Sprint(preDML)
+		shape = featShape(feat)
 		steps = append(steps, gtxStep{Op: "query", DB: "at", SQL: sql, Args: args, StopOnErr: true})
 		if explicit {
 			steps = append(steps, gtxStep{Op: "commit"})
